@@ -42,11 +42,13 @@ fn render_value(rng: &mut Rng, v: &[u8], sloppy: bool) -> Vec<u8> {
     }
     o
 }
+// the dn flag: three in four as ":dn", the rest in another case (F37)
+fn dnflag(rng: &mut Rng) -> Vec<u8> { if rng.chance(3, 4) { b":dn".to_vec() } else { rng.pick(&[&b":DN"[..], b":Dn", b":dN"]).to_vec() } }
 fn rand_item(rng: &mut Rng, sloppy: bool) -> Vec<u8> {
     let a = rand_attr(rng);
     let v = rand_value(rng);
     let rv = render_value(rng, &v, sloppy);
-    let rules: &[&[u8]] = &[b"caseExactMatch", b"2.5.13.5", b"dnMatch", b"dn", b"dnSubtreeMatch", b"dn-x", b"d", b"1.2"];
+    let rules: &[&[u8]] = &[b"caseExactMatch", b"2.5.13.5", b"dnMatch", b"dn", b"DN", b"dnSubtreeMatch", b"dn-x", b"d", b"1.2"];
     match rng.below(12) {
         0 => [a, b"=".to_vec(), rv].concat(),
         1 => [a, b">=".to_vec(), rv].concat(),
@@ -58,10 +60,10 @@ fn rand_item(rng: &mut Rng, sloppy: bool) -> Vec<u8> {
             for _ in 0..1 + rng.below(3) { s.push(b'*'); if rng.chance(3, 4) { let x = rand_value(rng); s.extend(render_value(rng, &x, sloppy)); } }
             s }
         7 => [a, b":=".to_vec(), rv].concat(),
-        8 => [a, b":dn:=".to_vec(), rv].concat(),
+        8 => [a, dnflag(rng), b":=".to_vec(), rv].concat(),
         9 => [a, b":".to_vec(), rng.pick(rules).to_vec(), b":=".to_vec(), rv].concat(),
-        10 => [a, b":dn:".to_vec(), rng.pick(rules).to_vec(), b":=".to_vec(), rv].concat(),
-        _ => [if rng.chance(1, 2) { b":dn:".to_vec() } else { b":".to_vec() }, rng.pick(rules).to_vec(), b":=".to_vec(), rv].concat(),
+        10 => [a, dnflag(rng), b":".to_vec(), rng.pick(rules).to_vec(), b":=".to_vec(), rv].concat(),
+        _ => [if rng.chance(1, 2) { [dnflag(rng), b":".to_vec()].concat() } else { b":".to_vec() }, rng.pick(rules).to_vec(), b":=".to_vec(), rv].concat(),
     }
 }
 fn rand_filter(rng: &mut Rng, depth: usize, sloppy: bool) -> Vec<u8> {
@@ -86,7 +88,7 @@ pub fn gen_filter(rng: &mut Rng, n: usize, out: &mut Vec<String>) {
         out.push(format!("filter {}", hex(&s)));
     }
     for _ in 0..n / 20 { let k = rng.below(10) as usize; out.push(format!("filter {}", hex(&rng.bytes(k)))); }
-    for w in ["(cn:dnMatch:=x)", "(:dnFoo:=x)", "(entryDN:dnSubtreeMatch:=dc=example,dc=com)", "(cn:dn:=x)", "(cn:dn:dnMatch:=x)", "(&)", "(|)", "cn=x", "(a=*)", "(a=**)", "(a=*b**c)", "(a=\\2a)", "(a=\\2)", "(=x)", "(a=x))", "((a=x)", "(2=v)", "(a;b=c)", "(a;=c)",
+    for w in ["(cn:dnMatch:=x)", "(:dnFoo:=x)", "(entryDN:dnSubtreeMatch:=dc=example,dc=com)", "(cn:dn:=x)", "(cn:dn:dnMatch:=x)", "(ou:DN:=People)", "(ou:Dn:2.5.13.5:=People)", "(:dN:caseIgnoreMatch:=x)", "(cn:DN:dnMatch:=x)", "(cn:DNx:=x)", "(&)", "(|)", "cn=x", "(a=*)", "(a=**)", "(a=*b**c)", "(a=\\2a)", "(a=\\2)", "(=x)", "(a=x))", "((a=x)", "(2=v)", "(a;b=c)", "(a;=c)",
               // numeric OIDs with arcs beyond 64 bits (2.25.<UUID>), at and around u64::MAX, zero arcs, leading zeros
               "(2.25.329800735698586629295641978511506172918=v)", "(1.18446744073709551615=v)", "(1.18446744073709551616=v)", "(1.2.99999999999999999999999999=*)", "(a:2.25.329800735698586629295641978511506172918:=v)",
               "(1.0.3=v)", "(1.02=v)", "(0.0=v)",
